@@ -208,7 +208,9 @@ Definition stage_of {A} (r : res A) : pstage :=
 Record pipe_case := {
   pc_bytes : bytes; pc_root : bytes;
   pc_unmarshal : pstage; pc_verify : pstage;
-  pc_verdict : option verdict; pc_world : list pred; pc_query : option (obs (list pred)) }.
+  pc_verdict : option verdict; pc_world : list pred; pc_query : option (obs (list pred));
+  (* what Go's regexp answered for the (pattern, subject) pairs this token can evaluate *)
+  pc_rx : list (bytes * bytes * option bool) }.
 
 Definition default_limits : limits :=
   {| max_facts := Generated.default_max_facts; max_iterations := Generated.default_max_iterations |}.
@@ -220,16 +222,18 @@ Definition pipe_ok pubt vert (panel : list aop) (c : pipe_case) : bool :=
       (match tk_verify (opub pubt) (overify vert) (KSingular (pc_root c)) t with
        | Ok _ =>
            pstage_eqb POk (pc_verify c) &&
-           (let tr := atrace_full (fun _ _ => None) (resolve_token t) panel
+           (let tr := atrace_full (orx (pc_rx c)) (resolve_token t) panel
                         (fresh {| max_facts := 1000; max_iterations := 100 |}) in
             let vs := filter (fun o => match o with AOVerdict _ _ => true | _ => false end) tr in
             let qs := filter (fun o => match o with AOQuery _ => true | _ => false end) tr in
             (match vs, pc_verdict c with
              | AOVerdict v w :: _, Some v' => verdict_eqb v v' && list_eqb pred_seqb w (pc_world c)
+             | _, None => true   (* evaluation outcome not compared for this case (see the harness) *)
              | _, _ => false
              end) &&
             (match qs, pc_query c with
              | AOQuery r :: _, Some r' => obs_eqb (list_eqb pred_seqb) r r'
+             | _, None => true
              | _, _ => false
              end))
        | r => pstage_eqb (stage_of r) (pc_verify c)
